@@ -149,6 +149,18 @@ CHECKS["C13"] = {
             "key classes of the tag-name rule",
     "technique": "TLC-enumerated pod histories with expected lookups replayed into the real provider over client-go fakes",
 }
+CHECKS["C12"] = {
+    "text": "InstanceCache.tla models the Run loop, handleInstanceInfo, doRefresh, Peek and the lookup dispatcher's batches over integer "
+            "time and is composed with the CacheProp monitor (abstract cache from the statement: one answer per queried source, KeepGood, "
+            "last-use, eviction and re-query at refresh ticks, gauges); TLC checks all interleavings of small instances and refutes a "
+            "forget-on-error variant. TLC-enumerated schedules (submissions, peeks, clock advances across refresh / TTL / idle "
+            "boundaries, provider outcomes full / partial / empty / error / error+partial, batch limits 1 / 2 / 10) drive the real "
+            "CachedCloudProvider under virtual time; TLC validates the recorded traces against the monitor.",
+    "design_ref": "6/C12",
+    "note": "clients read InfoSource promptly (the monitor dates an entry by its answer); whole-second times; how sources are grouped "
+            "into provider calls is not constrained",
+    "technique": "TLC design check of the cache model + TLC trace validation of real executions under TLC-enumerated schedules and virtual time",
+}
 NOT_APPLICABLE = [{"property_id": p, "reason": "check not built yet (build in progress; see DESIGN.md Appendix B for the order)"}
                   for p in ALL if p not in CHECKS]
 ENGINES[0]["serves_properties"] = sorted(CHECKS)
